@@ -130,6 +130,7 @@ def r2_filter_shape(ctx):
     cd = cdiscr(facts)
     backs = [o for o in outs if o.kind == 'backedge']
     n = 0
+    in_place = 0
     for o in backs:
         calls = [e for e in o.events if e[0] == 'call' and e[1] in (ap, un, GAT)]
         names = [e[1].rsplit('::', 1)[-1] for e in calls]
@@ -159,6 +160,12 @@ def r2_filter_shape(ctx):
                 king_ok = bool(hv) and all(h[1] == a[3] for h in hv) and side == [col.lower()] and idx == [C(king)]
         pushed = [e for e in o.events if e[0] == 'call' and e[1].endswith('SmallVec::<A>::push')]
         keep_ok = (pol == 'safe' and len(pushed) == 1 and strip_refs(pushed[0][2][1]) == strip_refs(a[2][0])) or (pol == 'attacked' and not pushed)
+        kept = [e for e in o.events if e[0] == 'retain']
+        if kept:
+            # in-place form: `candidates.retain(|m| ...)` on the candidate list itself keeps the element iff the predicate holds
+            in_place = in_place + 1
+            keep_ok = (not pushed and len(kept) == 1 and kept[0][4] == ('ref', ('der', ('p', 1))) and strip_refs(a[2][0]) == kept[0][3]
+                       and kept[0][2] == (pol == 'safe'))
         ctx.ob(rule, name, '%s/%s: same move applied and undone on the caller\'s board' % (col, pol), same_move, found=[show(a[2][0])[:80], show(u[2][0])[:80]])
         ctx.ob(rule, name, '%s/%s: attack map of opposite(color) computed between apply and undo' % (col, pol), att_ok, found=[show(x) for x in g[2][1:]],
                expected='generate_attack_targets(board, color.opposite())')
@@ -170,7 +177,9 @@ def r2_filter_shape(ctx):
     ctx.floor(rule, 'iteration paths', n, 4)
     exits = [o for o in outs if o.kind == 'return']
     ok = bool(exits) and all(any(e[0] == 'call' and e[1].endswith('::append') for e in o.events) for o in exits)
-    ctx.ob(rule, name, 'survivors replace the candidate list after the loop', ok, expected='candidates.append(&mut valid_moves)', nontrivial=False)
+    if in_place and in_place == n:
+        ok = bool(exits)        # retain filters the candidate list itself: nothing to copy back
+    ctx.ob(rule, name, 'survivors replace the candidate list after the loop', ok, expected='candidates.append(&mut valid_moves) (or an in-place retain)', nontrivial=False)
 
 
 def strip_refs(t):
@@ -806,15 +815,36 @@ def r7_promotions(ctx):
                   readonly={CHESSMOVE + '::to_square', CHESSMOVE + '::from_square', CHESSMOVE + '::captures'}, max_paths=4000).run(name)
     ctx.touch(name)
     okp = False
+    adapter_over_set = False
+
+    def over_promotions(src):
+        # the source must be the whole constant: iter()/into_iter() directly on (a reference to) it — no take/skip/slicing in between
+        if src[0] != 'call' or src[1].rsplit('::', 1)[-1] not in ('iter', 'into_iter') or len(src[2]) != 1:
+            return False
+        a = src[2][0]
+        for _ in range(8):
+            if a[0] in ('ref', 'K', 'der'):
+                a = a[1]
+            elif a[0] == 'call' and (a[1].endswith('Deref>::deref') or a[1].endswith('as_slice')) and len(a[2]) == 1:
+                a = a[2][0]
+            else:
+                break
+        if a[0] == 'named' and a[1].endswith('PAWN_PROMOTIONS'):
+            return True
+        return a[0] == 'agg' and a[1] == 'array' and [x[3] for _, x in a[4] if x[0] == 'agg'] == names
     for o in outs:
+        # adapter spelling (`flat_map(|m| PAWN_PROMOTIONS.iter().map(..))`, `for_each`): the elements of an adapter whose source is the constant
+        inner = {e[2][1] for e in o.events if e[0] == 'adapter' and over_promotions(e[3])}
         for e in o.events:
             if e[0] == 'call' and e[1].endswith('::push'):
                 mv = e[2][1]
                 if mv[0] == 'agg' and mv[3] == 'PawnPromotion':
                     f = dict(dict(mv[4])['0'][4])
                     src = show(f['promote_to_piece'])
+                    from_adapter = any(s_[0] == 'elem' and s_[1] in inner for s_ in subterms(f['promote_to_piece']))
+                    adapter_over_set = adapter_over_set or from_adapter
                     okp = 'from_square' in show(f['from_square']) and 'to_square' in show(f['to_square']) and 'captures' in show(f['captures']) and \
-                        ('PAWN_PROMOTIONS' in src or 'next' in src)
+                        ('PAWN_PROMOTIONS' in src or 'next' in src or from_adapter)
     # every standard pawn move that reaches the caller's list went through the last-rank split
     appended = set()
     for o in outs:
@@ -862,7 +892,7 @@ def r7_promotions(ctx):
                     iters = True
                 if a[0] == 'agg' and a[1] == 'array' and [x[3] for _, x in a[4] if x[0] == 'agg'] == names:
                     iters = True
-    ctx.ob(rule, name, 'each promotable move is expanded over every element of PAWN_PROMOTIONS, keeping from/to/capture', okp and iters,
+    ctx.ob(rule, name, 'each promotable move is expanded over every element of PAWN_PROMOTIONS, keeping from/to/capture', okp and (iters or adapter_over_set),
            expected='for &promotion in &PAWN_PROMOTIONS { push(PawnPromotion::new(from, to, captures, promotion)) }')
 
 
